@@ -96,7 +96,7 @@ func (c *ContentTypes) Add(name string) {
 		return
 	}
 	ext := path.Ext(path.Base(name))
-	if ext[0] == '.' {
+	if ext != "" && ext[0] == '.' {
 		ext = ext[1:]
 		if ctype := defaultExtensions[ext]; ctype != "" {
 			c.ByExt[ext] = ctype
@@ -116,7 +116,7 @@ func (c *ContentTypes) Find(name string) string {
 		return ctype
 	}
 	ext := path.Ext(path.Base(name))
-	if ext[0] == '.' {
+	if ext != "" && ext[0] == '.' {
 		if ctype := c.ByExt[ext[1:]]; ctype != "" {
 			return ctype
 		}
